@@ -44,7 +44,7 @@ LAWS = {
 
 
 def lattice_point(vid: int, spacing=None) -> Tuple[float, float, float]:
-    x, y, z = vid % 5, (vid // 5) % 5, vid // 25
+    x, y, z = vid % 6, (vid // 6) % 6, vid // 36
     if spacing is None:
         return (float(x), float(y), float(z))
     return (spacing[0][x], spacing[1][y], spacing[2][z])
@@ -52,7 +52,7 @@ def lattice_point(vid: int, spacing=None) -> Tuple[float, float, float]:
 
 def lattice_id(p, spacing=None, tol=1e-6) -> Optional[int]:
     if spacing is None:
-        spacing = [[0.0, 1.0, 2.0, 3.0, 4.0]] * 3
+        spacing = [[0.0, 1.0, 2.0, 3.0, 4.0, 5.0]] * 3
     idx = []
     for d in range(3):
         found = None
@@ -62,7 +62,7 @@ def lattice_id(p, spacing=None, tol=1e-6) -> Optional[int]:
         if found is None:
             return None
         idx.append(found)
-    return idx[0] + 5 * idx[1] + 25 * idx[2]
+    return idx[0] + 6 * idx[1] + 36 * idx[2]
 
 
 def build_mesh(cfg: dict, spacing=None):
